@@ -317,7 +317,7 @@ theorem py_field_holds {fuel : Nat} {ss : Schemas} {pkg name : String} {o : Obj}
       · simp only [hc, if_true] at hfit ⊢
         simpa [scalarValue] using pyScalar_plain hfit
       · simp only [hc, if_false] at hfit ⊢
-        simpa [Ty.getMeta] using hfit
+        simpa [Ty.getMeta] using pyScalar_plain hfit
     exact py_own_holds hl hn hf (by simp [hfty, Ty.isRef]) (by simp [hfty, isCRef]) hp hj
   | array e fm =>
     exact py_own_holds hl hn hf (by simp [hfty, Ty.isRef]) (by simp [hfty, isCRef])
@@ -340,5 +340,51 @@ theorem py_field_holds {fuel : Nat} {ss : Schemas} {pkg name : String} {o : Obj}
       | struct sfs sg sgi sm => exact py_struct_holds hl hn hf hfty hlo hoty hfit hj
       | _ => simp [hlo, hoty] at hfit'
   | _ => simp [pyFits, hfty] at hfit
+
+/-! ### instance independence -/
+
+theorem pyOfVal_scalar_immutable {v : Val} (h : pyScalarVal? v = true) : pyMutableExpr (pyOfVal v) = false := by
+  cases v <;> simp [pyScalarVal?] at h <;> simp [pyOfVal, pyMutableExpr]
+
+/-- a member of a collection / reference / enum / union type never gets its default in the
+    signature: the printed expression is evaluated anew by every call of the constructor -/
+theorem pyField_optional_kind {fuel : Nat} {ss : Schemas} {f : Field} {pf : PyField}
+    (h : pyField fuel ss f = .ok pf) (hk : isOptionalKind f.ty = true) : pySharedDefault pf = false := by
+  have hc : f.ty.isConcrete = false := by
+    cases hty : f.ty <;> simp [hty, isOptionalKind] at hk <;> simp [Ty.isConcrete]
+  unfold pyField at h
+  split at h
+  · simp at h
+  · obtain ⟨dv, _, h3⟩ := PRes.bind_eq_ok.mp h
+    simp only [hc, Bool.false_eq_true, if_false, hk, if_true] at h3
+    cases h3
+    rfl
+
+/-- no fitting member shares a mutable default between instances -/
+theorem py_fits_not_shared {fuel : Nat} {ss : Schemas} {f : Field} {pf : PyField}
+    (h : pyField fuel ss f = .ok pf) (hfit : pyFits ss f = true) : pySharedDefault pf = false := by
+  cases hty : f.ty with
+  | scalar kind value cs m =>
+    unfold pyField at h
+    simp only [hty, isCRef, Bool.false_eq_true, if_false] at h
+    obtain ⟨dv, hdv, h3⟩ := PRes.bind_eq_ok.mp h
+    unfold pyFits at hfit
+    simp only [hty] at hfit
+    by_cases hc : (Ty.scalar kind value cs m).isConcrete = true
+    · simp only [hc, if_true] at h3
+      cases h3; rfl
+    · simp only [hc, if_false, isOptionalKind, Bool.false_eq_true] at h3 hfit
+      cases h3
+      have hsc : pyScalarVal? m.dflt = true := by simpa [Ty.getMeta] using hfit
+      have hnn : m.dflt.isNilV = false := pyPlain_nonnil (pyScalar_plain hsc)
+      simp only [Ty.getMeta, hnn, Bool.not_false, Bool.or_true, if_true] at hdv
+      have := pyDefaultExpr_own hdv (by simp [Ty.isRef]) (by simpa [Ty.getMeta] using hnn)
+      subst this
+      simp [pySharedDefault, optExpr, Ty.getMeta, pyOfVal_scalar_immutable hsc]
+  | array e m => exact pyField_optional_kind h (by simp [hty, isOptionalKind])
+  | enum vs m => exact pyField_optional_kind h (by simp [hty, isOptionalKind])
+  | disj bs i m => exact pyField_optional_kind h (by simp [hty, isOptionalKind])
+  | ref p n m => exact pyField_optional_kind h (by simp [hty, isOptionalKind])
+  | _ => simp [pyFits, hty] at hfit
 
 end Cog.Sem.Defaults
